@@ -254,6 +254,14 @@ def run(ck, facts):
                     n_short += 1
                     g = arm.get("g")
                     okg = bool(g) and any((C.callee(x) or "").endswith("is_contiguous_enum") for x in C.calls_in(g))
+                    if not okg:
+                        # one arm for all enums with the test inside it: every piece of text that uses the shortcut sits on the branch where the predicate holds
+                        def is_pred(c_):
+                            return any((C.callee(x) or "").endswith("is_contiguous_enum") for x in C.calls_in(c_)) or (c_.get("k") in ("call", "mcall") and (C.callee(c_) or "").endswith("is_contiguous_enum"))
+                        uses = [(n_, st_) for n_, st_ in C.with_conditions(arm["b"]) if (n_.get("k") == "lit" and isinstance(n_.get("v"), str) and re.search(r"\.index\b|\.values\[", n_["v"])) or
+                                (n_.get("k") == "macro" and re.search(r"\.index\b|\.values\[", n_.get("src") or ""))]
+                        import flow as _fl11
+                        okg = bool(uses) and all(C.asserted(st_, is_pred, dict(_fl11.defs_of(f))) for _, st_ in uses)
                     ck.expect(okg, "R1", "%s/enum-shortcut@%s" % (f["path"].split("::")[-1], direct[:24]), "guarded by is_contiguous_enum", "Dart uses the positional shortcut `%s` for an enum without the contiguity guard" % direct[:40], C.loc(f, arm.get("ln")))
     if n_short < 3:
         ck.bad("R1", "dart/shortcut-floor", "only %d guarded positional shortcuts found in the Dart backend (3 counted)" % n_short)
